@@ -311,8 +311,8 @@ PROPS = {
                 "non-trivial = label not 'trivial' Conclusion-index goals: field op literal with literals that contain operator characters ('a==b', \"<\", \">= 1\").",
         "level_text": "Proved: for EVERY history of insertions, index creations, drops and filters the alpha-memory answers are those of the index-free scan (all value shapes, NaN, signed zeros, nested arrays; by an invariant "
                 "over all indexes: every bucket, filtered, is the scan, with index keys an equivalence that contains ==); Debug-equal values are interchangeable for ==; a memoised evaluation equals direct evaluation after any "
-                "sequence of earlier evaluations. Beta lookup = live facts with that key and conclusion-index completeness are the Coq-defined executable specifications in Index.ok evaluated on the real structures "
-                "after every op, plus model-vs-code comparison.",
+                "sequence of earlier evaluations. Beta lookup = exactly the live facts with that key, and conclusion-index completeness (every enabled rule that assigns the goal's field is proposed), are theorems too, for every history "
+                "(Proofs/IndexBetaProofs.v); the same statements are the Coq-defined executable specifications in Index.ok evaluated on the real structures after every op, plus model-vs-code comparison.",
         "level_note": "Trusted: Coq kernel; models of alpha_memory_index.rs/memoization.rs after fixes c8e1e36/34a4ae3, of BetaMemoryIndex and ConclusionIndex; Debug rendering of FactValue injective except NaN; "
                 "DefaultHasher collision-free (model compares the hashed sequences); SpecFloat for IEEE equality; harness; extraction. alpha_index_eq_scan is not yet a theorem (monitor only). Axioms: none.",
         "trusted_base": ["std DefaultHasher treated as injective on the hashed byte sequences", "Debug for f64 is injective on non-NaN values"],
@@ -322,8 +322,8 @@ PROPS = {
         "num": 19,
         "vo": ["Properties/C19.vo"],
         "harness_timeout": 1500,
-        "rule": "700 (quick) / 20000 (thorough) random rule sets of 1..24 rules (And/Or/Not trees of integer comparisons to depth 3 over 5 fields, one of them always missing; salience ties; ~10% disabled) x "
-                "max_threads 1..16 x min_rules_per_thread 1..4 x parallelism on/off, each executed 6 (quick) / 20 (thorough) times with the cfg-guarded yield/sleep points in the worker loop enabled; observed per run: "
+        "rule": "700 (quick) / 6000 (thorough) random rule sets of 1..24 rules (And/Or/Not trees of integer comparisons to depth 3 over 5 fields, one of them always missing; salience ties; ~10% disabled) x "
+                "max_threads 1..16 x min_rules_per_thread 1..4 x parallelism on/off, each executed 6 (quick) / 12 (thorough) times with the cfg-guarded yield/sleep points in the worker loop enabled; observed per run: "
                 "evaluated count, fired count, the (rule, verdict) set; before every second observed run the SAME engine executes a decoy knowledge base of the same name, size, version counter and rule names "
                 "with negated conditions and reversed saliences (state remembered by the engine between calls shows up in the observed run); non-trivial = at least 2 rules",
         "level_text": "Theorem for every rule set, facts, thread count >= 1, chunking parameters and EVERY order in which worker threads deliver their results: the parallel contexts are a permutation of evaluating the "
